@@ -7,16 +7,18 @@
 (* AddRR enumerates record type x section x owner form x RDATA name form x value class; Finish picks the      *)
 (* malformation ("exact" = well-formed; header count too large / too small; RDLENGTH 0 / too big / one short; *)
 (* a self-pointing or out-of-range pointer in place of the owner name or of the first RDATA name).            *)
-(* Query plans (kind = "query") are enumerated by Init directly.                                              *)
+(* Query plans (kind = "query") are enumerated by Init directly; so is the depth family (kind = "chain"): one  *)
+(* response per k in ChainDepths whose k owner names form a compression chain k pointers deep.                *)
 (* The check renders every plan with the driver's own encoder and compressor, runs DnsMessage::parse on it    *)
 (* (ASan+UBSan, exact-size buffer, every truncation, seeded byte mutations) and TLC judges the recorded        *)
 (* results with DnsRecordsTrace.tla.  Invariants here: Realizable (every pointer of a plan has a target) and  *)
 (* SectionsOrdered; Emit prints the cases.                                                                    *)
 EXTENDS DnsRecordsOps, TLC, Json
 
-CONSTANTS MaxRR      \* 1 or 2 records per response
+CONSTANTS MaxRR,       \* 1 or 2 records per response (enumerated family)
+          ChainDepths  \* depths k of the generated owner-name chains (family "chain")
 
-VARIABLES kind,      \* "resp" | "query"
+VARIABLES kind,      \* "resp" | "chain" | "query"
           rrs, avail, mm,        \* response under construction; mm = "open" until Finish
           qplan                  \* the query plan (kind = "query")
 vars == <<kind, rrs, avail, mm, qplan>>
@@ -60,7 +62,22 @@ UsesEarlierRecord(r) == \E i \in 1..Len(AllNames(r)) :
 
 LastSec == IF Len(rrs) = 0 THEN 1 ELSE rrs[Len(rrs)].sec
 
+\* ---- depth family: what a compressing server emits for a deep subdomain tree.  Record i (an A record in the answer
+\* section) is owned by  d<i>.d<i-1>. ... .d1.example.com  written as ONE literal label followed by a pointer to the
+\* owner of record i-1, which is itself label + pointer, ... down to the question's example.com: decoding the owner of
+\* record k follows k compression pointers.  A final CNAME record points with a bare pointer at the deepest owner
+\* (k + 1 jumps, through the RDATA path).  All of it is well-formed: RFC 1035 bounds a name by 255 octets / 127 labels,
+\* not by the number of pointers.
+ChainOwner(i) == [j \in 1..i |-> 100 + i - j + 1] \o NZ
+ChainRR(i) == [ty |-> "A", sec |-> 1, own |-> ChainOwner(i), olit |-> 1, ttl |-> 300, nums |-> <<>>, names |-> <<>>,
+               lits |-> <<>>, strs |-> <<1>>]
+ChainRRs(k) == [i \in 1..k |-> ChainRR(i)] \o
+               <<[ty |-> "CNAME", sec |-> 1, own |-> NQ, olit |-> 0, ttl |-> 300, nums |-> <<>>,
+                  names |-> <<ChainOwner(k)>>, lits |-> <<0>>, strs |-> <<>>]>>
+
 Init == \/ /\ kind = "resp" /\ rrs = <<>> /\ avail = InitialAvail /\ mm = "open" /\ qplan = <<>>
+        \/ /\ kind = "chain" /\ avail = {} /\ mm = "exact" /\ qplan = <<>>
+           /\ \E k \in ChainDepths : rrs = ChainRRs(k)
         \/ /\ kind = "query" /\ rrs = <<>> /\ avail = {} /\ mm = "query"
            /\ \E first \in {[name |-> n, form |-> f, qt |-> t, qc |-> c] :
                                 n \in {NQ, NZ, NR, NMAX}, f \in {"plain", "dot", "upper"}, t \in {1, 33, 255}, c \in {1, 3}},
@@ -103,9 +120,9 @@ RECURSIVE PlanOk(_, _, _)
 PlanOk(rs, i, av) == IF i > Len(rs) THEN TRUE
                      ELSE /\ NamesOk(AllNames(rs[i]), AllLits(rs[i]), 1, av)
                           /\ PlanOk(rs, i + 1, AvailAfter(AllNames(rs[i]), AllLits(rs[i]), 1, av))
-Realizable == kind = "resp" => PlanOk(rrs, 1, InitialAvail)
+Realizable == kind \in {"resp", "chain"} => PlanOk(rrs, 1, InitialAvail)
 SectionsOrdered == \A i \in 1..Len(rrs) - 1 : rrs[i].sec <= rrs[i + 1].sec
 Emit == CASE mm = "open" -> TRUE
           [] mm = "query" -> PrintT(ToJson([kind |-> "query", plan |-> qplan]))
-          [] OTHER -> PrintT(ToJson([kind |-> "resp", plan |-> [q |-> NQ, qt |-> 1, rrs |-> rrs, mm |-> mm]]))
+          [] OTHER -> PrintT(ToJson([kind |-> "resp", plan |-> [q |-> NQ, qt |-> 1, rrs |-> rrs, mm |-> mm, fam |-> kind]]))
 =============================================================================
